@@ -147,6 +147,7 @@ func vrandPush(v uint32)                {}
 func vclockWithin(d int64)              {}
 func vclockFreeze()                     {}
 func vsymbolic() bool                   { return true }
+func vreadvPush(n int)                  {}
 `
 	}
 	return "package " + pkg + `
@@ -253,6 +254,7 @@ func vrandPush(v uint32)      {}
 func vclockWithin(d int64)    {}
 func vclockFreeze()           {}
 func vsymbolic() bool         { return false }
+func vreadvPush(n int)        {}
 func vparam(name string, def int) int {
 	vload()
 	if v, ok := vparams[name]; ok {
